@@ -280,6 +280,10 @@ pub fn exec_case(st: &mut Stats, sub: &mut Subject, rs: &RunSpec, tape: &mut Tap
     if pe > 0 {
         st.add("polls_after_stream_end", pe);
     }
+    let md = crate::director::MID_POLL_DROPS.with(|c| c.replace(0));
+    if md > 0 {
+        st.add("fnrefs_dropped_in_the_middle_of_a_poll", md);
+    }
     let fc = crate::director::FNREF_CLONES.with(|c| c.replace(0));
     if fc > 0 {
         st.add("fnref_clones_made_and_dropped", fc);
